@@ -326,7 +326,37 @@ func (st *pvState) walk(v ssa.Value, fr *frame) {
 		st.call(x, 0, fr)
 	case *ssa.MakeSlice:
 		st.leaf("make", x)
-		// contents written through copy/stores are not tracked
+		// contents written by copy(dst, src) into a slice of non-zero length
+		if k, ok := x.Len.(*ssa.Const); ok && k.Value != nil && k.Value.ExactString() == "0" {
+			return
+		}
+		for _, ref := range *x.Referrers() {
+			var dsts []ssa.Value
+			switch y := ref.(type) {
+			case *ssa.Slice:
+				dsts = append(dsts, y)
+			case *ssa.ChangeType:
+				dsts = append(dsts, y)
+			case *ssa.Call:
+				dsts = append(dsts, x)
+			}
+			for _, d := range dsts {
+				for _, rr := range *d.Referrers() {
+					if c, ok := rr.(*ssa.Call); ok {
+						if b, ok := c.Call.Value.(*ssa.Builtin); ok && b.Name() == "copy" && len(c.Call.Args) == 2 && c.Call.Args[0] == d {
+							st.walk(c.Call.Args[1], fr)
+						}
+					}
+				}
+			}
+		}
+		for _, rr := range *x.Referrers() {
+			if c, ok := rr.(*ssa.Call); ok {
+				if b, ok := c.Call.Value.(*ssa.Builtin); ok && b.Name() == "copy" && len(c.Call.Args) == 2 && c.Call.Args[0] == ssa.Value(x) {
+					st.walk(c.Call.Args[1], fr)
+				}
+			}
+		}
 	case *ssa.MakeMap:
 		st.leaf("make", x)
 	case *ssa.MakeClosure:
